@@ -30,6 +30,7 @@ struct Conn {
   std::deque<std::string> send_script;  // results of future send() calls
   long tx_bytes = 0;
   bool accepted = false;
+  bool rx_cr = false;              // last delivered byte was CR (telnet newline may span two recv calls)
 };
 
 struct SimFd {
@@ -53,10 +54,12 @@ static int alloc_fd() {
   return fd;
 }
 
+int kernel_conn_of_fd(int fd) { auto it = fds.find(fd); if (it == fds.end() || it->second.kind != K_CONN) return fd == 0 ? -2 : -1; return it->second.conn; }
 bool kernel_is_simfd(int fd) { return fd >= SIMFD_BASE && fds.count(fd); }
 
-void kernel_reset() { fds.clear(); conns.clear(); the_eventfd = -1; }
+void kernel_reset();
 
+void kernel_reset() { fds.clear(); conns.clear(); the_eventfd = -1; }
 static uint64_t splitmix(uint64_t x) {
   x += 0x9e3779b97f4a7c15ULL;
   x = (x ^ (x >> 30)) * 0xbf58476d1ce4e5b9ULL;
@@ -64,7 +67,11 @@ static uint64_t splitmix(uint64_t x) {
   return x ^ (x >> 31);
 }
 
-static void advance_us(int64_t us) { S.vus += us; }
+static long syscalls = 0;
+static void advance_us(int64_t us) {
+  S.vus += us;
+  if (++syscalls > 300000) { ev("HANG syscalls"); ev_flush(); _exit(75); }
+}
 
 // ------------------------------------------------------------------ clock
 extern "C" time_t __wrap_time(time_t *t) {
@@ -212,8 +219,14 @@ extern "C" ssize_t __wrap_recv(int fd, void *buf, size_t len, int flags) {
     size_t n = std::min(len, seg.size());
     if (n == 0 && len == 0) { ev("recv conn=%d len0", c.id); return 0; }
     memcpy(buf, seg.data(), n);
+    int nls = 0;   // telnet newline sequences (CR LF / CR NUL) completed by this read
+    for (size_t i = 0; i < n; i++) {
+      unsigned char ch = (unsigned char)seg[i];
+      if (c.rx_cr && (ch == '\n' || ch == 0)) nls++;
+      c.rx_cr = (ch == '\r');
+    }
     if (n == seg.size()) c.in.pop_front(); else seg.erase(0, n);
-    ev("recv conn=%d n=%zu asked=%zu", c.id, n, len);
+    ev("recv conn=%d n=%zu asked=%zu crnl=%d", c.id, n, len, nls);
     S.stats["recv_calls"]++;
     if (n < len) S.stats["recv_short"]++;
     return (ssize_t)n;
@@ -385,6 +398,9 @@ static void do_step(const Step &st) {
     int cid = atoi(st.a[0].c_str());
     if (conns.count(cid))
       for (auto &r : split(st.a[1], ',')) if (!r.empty()) conns[cid].send_script.push_back(r);
+  } else if (op == "openwindow") {  // openwindow <conn>: forget the remaining scripted send results
+    int cid = atoi(st.a[0].c_str());
+    if (conns.count(cid)) conns[cid].send_script.clear();
   } else if (op == "console") {
     console_line(st.a.size() ? st.a[0] : std::string());
   } else if (op == "fault") {   // fault <k> [kind]: inject an LPC error at the k-th instruction from now
